@@ -603,8 +603,18 @@ def run(run):
         'compared byte for byte',
         'the reference path (FakedWBEMConnection.<Operation>) shares the operation-method code of WBEMConnection; what it '
         'must pass to the server is therefore stated independently from the call arguments (expected_seen, fixed table)']
+    _run_all(run, with_model=True)
+
+
+def oracle_only(run):
+    """the Lean side did not build: no model to compare with, the property oracle still runs on the real code"""
+    run.rule = 'oracle only (the model did not build): same generators as the full run'
+    _run_all(run, with_model=False)
+
+
+def _run_all(run, with_model):
     thorough = run.thorough
-    state = {'sig_checked': False}
+    state = {'sig_checked': not with_model}
 
     def flush(out):
         """model side + comparisons + oracle for the collected steps, then forget them (bounded memory)"""
@@ -612,7 +622,7 @@ def run(run):
         if not state['sig_checked']:
             reqs.append({'op': 'sig'})
         for k, (st, dflt, host, case, scripted) in enumerate(out):
-            rq = driver_request(st, dflt, st.host)
+            rq = driver_request(st, dflt, st.host) if with_model else None
             if rq is not None:
                 idx.append(k)
                 reqs.append(rq)
